@@ -40,6 +40,8 @@ fn c05_cfg(tier: Tier, index: u64) -> HistCfg {
         special_keys: false,
         default_table: false,
         big_table: None,
+        empty_mid: false,
+        empty_end: false,
     };
     if index % 50 == 13 {
         make_dense(&mut c, tier == Tier::Thorough);
@@ -102,6 +104,8 @@ fn c06_cfg(tier: Tier, index: u64) -> HistCfg {
         special_keys: false,
         default_table: false,
         big_table: None,
+        empty_mid: false,
+        empty_end: false,
     };
     // files beyond 2 MiB, phased workloads, keys with particular byte patterns
     rare_regions(&mut c, index);
@@ -295,6 +299,8 @@ fn c02_cfg(tier: Tier, index: u64) -> HistCfg {
         special_keys: false,
         default_table: false,
         big_table: None,
+        empty_mid: false,
+        empty_end: false,
     };
     rare_regions(&mut c, index);
     c
@@ -348,7 +354,11 @@ fn c04_cfg(tier: Tier, index: u64) -> HistCfg {
         special_keys: false,
         default_table: false,
         big_table: None,
+        empty_mid: false,
+        empty_end: false,
     };
+    c.empty_mid = index % 7 == 3;
+    c.empty_end = index % 31 == 5;
     if index % 1200 == 213 {
         make_very_dense(&mut c);
         c.ops.w.iter = 1;
@@ -424,6 +434,8 @@ fn c14_cfg(tier: Tier, index: u64) -> HistCfg {
         special_keys: false,
         default_table: false,
         big_table: None,
+        empty_mid: false,
+        empty_end: false,
     };
     c.special_keys = index % 8 == 3;
     let _ = tier;
